@@ -593,3 +593,14 @@ Example mss_roundtrip_refuted :
   mss_parse_gen true P0 (mss_string P0 [(s2r "a", [])]) = Ok [] /\
   mss_parse_gen true P0 (mss_string P0 [(s2r "a", [s2r "x"]); (s2r "b", [])]) = Ok [(s2r "a", [s2r "x"])].
 Proof. split; vm_compute; reflexivity. Qed.
+
+(* the current tree *)
+Lemma map_roundtrip_l isp : (forall r, r < 128 -> isp r = ascii_print r) ->
+  forall m, NoDup (map fst m) -> Forall pair_valid m ->
+  exists m', map_ss_parse isp (map_ss_string isp m) = Ok m' /\ Permutation m' m.
+Proof. intros H m Hn Hv. exact (map_roundtrip_gen isp H true m Hn Hv (or_introl eq_refl)). Qed.
+
+Lemma mss_roundtrip_l isp : (forall r, r < 128 -> isp r = ascii_print r) ->
+  forall m, NoDup (map fst m) -> Forall entry_valid m -> Forall (fun kv => snd kv <> []) m ->
+  exists m', mss_parse isp (mss_string isp m) = Ok m' /\ Permutation m' m.
+Proof. intros H m Hn Hv Hne. exact (mss_roundtrip_gen isp H true m Hn Hv Hne (or_introl eq_refl)). Qed.
